@@ -97,6 +97,33 @@ func TestC15(t *testing.T) {
 	var hs []hist
 	slow := 0
 	certPEM, keyPEM := genCert(t)
+	// a plugin behind a container-like runner (the plugin sees the socket directory under another path): the application
+	// reattaches with its own ReattachFunc whose runner translates addresses exactly as the launching runner does
+	for _, proto := range []string{"netrpc", "grpc"} {
+		for _, h := range all {
+			if len(h.events) > 3 {
+				continue
+			}
+			var ops, names []string
+			for _, e := range h.events {
+				ops = append(ops, e.ops...)
+				names = append(names, e.name)
+			}
+			if strings.Contains(strings.Join(names, " "), "AD") {
+				continue // reattach after death goes through the default pid probe, which such a runner does not use
+			}
+			if h.st.alive {
+				ops = append(ops, "kill:0")
+			}
+			cells = append(cells, Cell{
+				Name:   fmt.Sprintf("%s plugin behind a runner that translates addresses history=[%s]", proto, strings.Join(names, " ")),
+				Plugin: PluginConf{CookieKey: cookieKey, CookieValue: cookieVal, Legacy: 1, LegacyProto: proto, GRPCServer: true, TLS: "none"},
+				Host:   HostConf{Allowed: []string{"netrpc", "grpc"}, TLS: "none", Launch: "runner-xlate", Legacy: 1},
+				Ops:    ops,
+			})
+			hs = append(hs, h)
+		}
+	}
 	// hand-made plugins (not plugin.Serve) that listen where such a plugin may: on a Linux abstract socket (unix|@name)
 	for _, proto := range []string{"netrpc", "grpc"} {
 		for _, h := range all {
